@@ -1271,6 +1271,37 @@ func coinciding() []Spec {
 	return out
 }
 
+// -longlines: also generate ascii face lines that do not fit bufio.Scanner's default 64 KiB token (a face with a long
+// extra list property).  HEAD's reader reports "unexpected EOF" for them: finding, repair proposed in
+// fixes/C08-ply-long-ascii-lines.patch.  Off until known_findings.json lists key ply:line-over-64KiB (as known, or as
+// fixed once the patch landed): the plugin passes the flag then (or when C08_LONGLINES=1).
+var longLines bool
+
+const keyLongLine = "ply:line-over-64KiB"
+
+func longLineSpecs() []Spec {
+	xyz := []VProp{vp("float", "x"), vp("float", "y"), vp("float", "z")}
+	idx := FProp{Ct: "uchar", Lt: "int", Name: "vertex_indices", CtAlias: "uchar", LtAlias: "int"}
+	nb := FProp{Ct: "int", Lt: "int", Name: "neighbours", CtAlias: "int", LtAlias: "int"}
+	var out []Spec
+	for k, fps := range [][]FProp{{idx, nb}, {nb, idx}} {
+		s := Spec{Fmt: "ascii", Sep: " ", FloatFmt: "g", VProps: xyz, HasFace: true, FProps: fps,
+			Verts: [][]uint64{{f32(0), f32(0), f32(0)}, {f32(1), f32(0), f32(0)}, {f32(0), f32(1), f32(0)}}}
+		long := make([]uint64, 11000)
+		for i := range long {
+			long[i] = uint64(100000 + i)
+		}
+		for _, f := range [][][]uint64{{{0, 1, 2}, {7}}, {{2, 1, 0}, long}, {{1, 2, 0}, {}}} {
+			if k == 1 {
+				f[0], f[1] = f[1], f[0]
+			}
+			s.Faces = append(s.Faces, f)
+		}
+		out = append(out, s)
+	}
+	return out
+}
+
 func corner() []Spec {
 	xyz := []VProp{vp("float", "x"), vp("float", "y"), vp("float", "z")}
 	tri := FProp{Ct: "uchar", Lt: "int", Name: "vertex_indices", CtAlias: "uchar", LtAlias: "int"}
@@ -1313,6 +1344,7 @@ func corner() []Spec {
 
 func main() {
 	flag.BoolVar(&misplaced, "misplaced", false, "also generate elements before vertex / between vertex and face")
+	flag.BoolVar(&longLines, "longlines", false, "also generate ascii face lines longer than 64 KiB")
 	run := hx.ParseFlags("C08", "Check.C08")
 	run.ShardMax = 100 // a shard of 250 files needs 1.2 GB in coqc; 16 run in parallel
 	tmpDir = run.OutDir
@@ -1364,6 +1396,15 @@ func main() {
 	for _, s := range coinciding() {
 		small = append(small, specCase(s, "systematic"))
 		run.Count("systematic:corners-vs-vertices")
+	}
+	if longLines {
+		for _, s := range longLineSpecs() {
+			c := specCase(s, "longline")
+			if c.FailKey == "" {
+				c.FailKey = keyLongLine
+			}
+			small = append(small, c)
+		}
 	}
 	for _, d := range systematicBig() {
 		big = append(big, bigCase(d, "big-systematic"))
